@@ -223,6 +223,39 @@ class Oracle:
         if impl_write(x, v) != w:
             self.fail(cname, v, 'second-encode-differs', w, witness, {'path': 'presence-pattern'})
 
+    def constructed(self, cname, x, v, must_encode=False, other_versions=(), how=''):
+        """x was built through public constructors: read(write(x)) == x, write(read(write(x))) == write(x), purity."""
+        c = self.ctx
+        cls = type(x)
+        w, exc = impl_write_exc(x, v)
+        if w is None:
+            c.count('oracle.constructed.unencodable')
+            if must_encode:
+                self.fail(cname, v, 'constructed-value-cannot-be-encoded', how, exc, {'path': 'constructed'})
+            return None
+        self.n += 1
+        c.count('oracle.constructed.checked')
+        c.case_seen(('constructed', cname, v, w), nontrivial=True)
+        witness = {'built': how, 'encoded': w.hex()}
+        back, r = impl_read(cls, w, v)
+        if back is None or r != b'':
+            self.fail(cname, v, 'read(write(x)):rejected', w, dict(witness, exc=r if back is None else 'leftover'), {'path': 'constructed'})
+            return w
+        if same_obj(x, back) is False:
+            self.fail(cname, v, 'read(write(x))!=x', w, dict(witness, x=repr(x)[:300], decoded=repr(back)[:300]), {'path': 'constructed'})
+        if impl_write(back, v) != w:
+            self.fail(cname, v, 'write(read(write(x)))!=write(x)', w, witness, {'path': 'constructed'})
+        if impl_write(x, v) != w:
+            self.fail(cname, v, 'second-encode-differs', w, witness, {'path': 'constructed'})
+        for v2 in other_versions:
+            impl_write(x, v2)
+            w4 = impl_write(x, v)
+            if w4 != w:
+                self.fail(cname, v, 'encode-under-other-version-changes-object', w,
+                          dict(witness, after=w4.hex() if w4 else None), {'other_version': v2, 'retag_only': retag_only(w, w4), 'path': 'constructed'})
+                break
+        return w
+
     def constructor_path(self, cname, cls, v, obj, w, bs):
         """Rebuild the value through the public constructor from the decoded attributes; it must round trip too."""
         c = self.ctx
@@ -497,11 +530,19 @@ def harvested_oracle(ctx, oracle, t_classes):
                     continue
                 if quick and accepted_by_class.get(name, 0) >= 60:
                     continue
+                # a whole message carries its version in its header (read() rebinds kmip_version from it, write()
+                # does not): the value is defined for that version only
+                hdr = getattr(obj, 'request_header', None) or getattr(obj, 'response_header', None)
+                if hdr is not None and getattr(hdr, 'protocol_version', None) is not None:
+                    pv = hdr.protocol_version
+                    if 10 * pv.major + pv.minor != v:
+                        ctx.count('harvest.message-under-foreign-version.skipped')
+                        continue
                 n_acc += 1
                 accepted_by_class[name] = accepted_by_class.get(name, 0) + 1
                 ctx.case_seen((name, v, b), nontrivial=True)
                 others = [x for x in sg.VERSIONS if x != v]
-                oracle.accepted(name, c, v, b, obj, rest, False, [others[(len(b) + v) % len(others)]])
+                oracle.accepted(name, c, v, b, obj, rest, False, [] if hdr is not None else [others[(len(b) + v) % len(others)]])
     ctx.cov['harvested'] = {'blobs_with_a_candidate_class': n_blobs, 'accepted_class_version_pairs': n_acc,
                             'classes_reached': len(accepted_by_class),
                             'hand_modelled_classes_reached': sorted(n for n in accepted_by_class if n not in t_classes)}
@@ -581,6 +622,199 @@ def probes(ctx, oracle):
                           '%s: a default-constructed / constructor-built value does not survive encode-decode' % name)
 
 
+# ------------------------------------------------------------------ objects built through the public constructors (all classes)
+def constructed_objects(ctx, oracle):
+    """Real objects for the classes the schema generator cannot reach (dispatch on an earlier field, key material,
+    credentials, whole messages): built with the public constructors and factories, with boundary values
+    (empty / zero / False, index 0, length residues), then driven through the round-trip oracle under every version."""
+    enums, utils = kmip()
+    from kmip.core import objects, primitives, secrets, attributes, misc
+    from kmip.core.messages import payloads, contents, messages
+    from kmip.core.factories.attributes import AttributeFactory
+    rng = ctx.subrng('constructed')
+    f = AttributeFactory()
+    A = enums.AttributeType
+    out = []          # (name, thunk, versions)
+    V1 = [10, 11, 12, 13, 14]
+    ALL = sg.VERSIONS
+
+    # --- one Attribute per attribute type the value factory knows, several values each (incl. falsy ones)
+    samples = {
+        A.UNIQUE_IDENTIFIER: ['1', '', 'abcdefgh'], A.NAME: None, A.OBJECT_TYPE: [enums.ObjectType.SYMMETRIC_KEY, enums.ObjectType.CERTIFICATE],
+        A.CRYPTOGRAPHIC_ALGORITHM: [enums.CryptographicAlgorithm.AES, enums.CryptographicAlgorithm.DES],
+        A.CRYPTOGRAPHIC_LENGTH: [0, 128, 2 ** 31 - 1],
+        A.CRYPTOGRAPHIC_PARAMETERS: [{'block_cipher_mode': enums.BlockCipherMode.CBC, 'padding_method': enums.PaddingMethod.PKCS5},
+                                     {'hashing_algorithm': enums.HashingAlgorithm.SHA_256}, {}],
+        A.CERTIFICATE_TYPE: [enums.CertificateType.X_509], A.DIGITAL_SIGNATURE_ALGORITHM: [enums.DigitalSignatureAlgorithm.SHA256_WITH_RSA_ENCRYPTION],
+        A.OPERATION_POLICY_NAME: ['default', ''], A.CRYPTOGRAPHIC_USAGE_MASK: [[enums.CryptographicUsageMask.ENCRYPT, enums.CryptographicUsageMask.DECRYPT], []],
+        A.LEASE_TIME: [0, 3600, 2 ** 32 - 1], A.STATE: [enums.State.PRE_ACTIVE, enums.State.DESTROYED_COMPROMISED],
+        A.INITIAL_DATE: [0, 1411134000], A.ACTIVATION_DATE: [0, 2 ** 31], A.PROCESS_START_DATE: [1], A.PROTECT_STOP_DATE: [1], A.DEACTIVATION_DATE: [1],
+        A.DESTROY_DATE: [1], A.COMPROMISE_OCCURRENCE_DATE: [1], A.COMPROMISE_DATE: [1], A.ARCHIVE_DATE: [1], A.LAST_CHANGE_DATE: [1], A.ORIGINAL_CREATION_DATE: [1],
+        A.OBJECT_GROUP: ['group', ''], A.FRESH: [True, False], A.SENSITIVE: [True, False], A.ALWAYS_SENSITIVE: [False], A.EXTRACTABLE: [False], A.NEVER_EXTRACTABLE: [True],
+        A.CONTACT_INFORMATION: ['Joe', ''], A.CUSTOM_ATTRIBUTE: ['x', ''],
+        A.APPLICATION_SPECIFIC_INFORMATION: [{'application_namespace': 'ssl', 'application_data': 'www.example.com'}],
+    }
+    attrs_ok = []
+    for t in A:
+        vals = samples.get(t, [None])
+        if t is A.NAME:
+            vals = [attributes.Name.create('key-1', enums.NameType.UNINTERPRETED_TEXT_STRING), attributes.Name.create('', enums.NameType.URI)]
+        for val in vals:
+            for idx in (None, 0, 3):
+                try:
+                    a = f.create_attribute(t, val, idx)
+                except Exception:
+                    ctx.count('constructed.attribute.factory-refused')
+                    continue
+                if a.attribute_value is None:
+                    continue
+                how = 'AttributeFactory().create_attribute(%s, %r, index=%r)' % (t.name, val, idx)
+                out.append(('Attribute', (lambda a=a: a), V1, how))
+                if idx is None and val is vals[0]:
+                    attrs_ok.append((t, val))
+
+    def mk_attrs(k):
+        picks = [attrs_ok[(k * 7 + j * 3) % len(attrs_ok)] for j in range(1 + k % 4)]
+        return [f.create_attribute(t, val) for t, val in picks]
+
+    for k in range(8):
+        out.append(('TemplateAttribute', (lambda k=k: objects.TemplateAttribute(attributes=mk_attrs(k))), V1, 'TemplateAttribute(attributes=%d factory attributes #%d)' % (1 + k % 4, k)))
+    out.append(('TemplateAttribute', lambda: objects.TemplateAttribute(attributes=[]), V1, 'TemplateAttribute(attributes=[])'))
+    out.append(('CommonTemplateAttribute', lambda: objects.CommonTemplateAttribute(attributes=mk_attrs(2)), V1, 'CommonTemplateAttribute'))
+    out.append(('Template', lambda: secrets.Template(attributes=mk_attrs(3)), V1, 'Template(attributes)'))
+
+    # --- key material, key blocks, managed objects
+    def key_block(material=b'\x01' * 16, fmt=enums.KeyFormatType.RAW, alg=enums.CryptographicAlgorithm.AES, length=128, wrap=None, comp=None):
+        return objects.KeyBlock(
+            key_format_type=misc.KeyFormatType(fmt),
+            key_compression_type=None if comp is None else objects.KeyBlock.KeyCompressionType(comp),
+            key_value=objects.KeyValue(key_material=objects.KeyMaterial(material)),
+            cryptographic_algorithm=None if alg is None else attributes.CryptographicAlgorithm(alg),
+            cryptographic_length=None if length is None else attributes.CryptographicLength(length),
+            key_wrapping_data=wrap)
+
+    def wrapping():
+        return objects.KeyWrappingData(
+            wrapping_method=enums.WrappingMethod.ENCRYPT,
+            encryption_key_information=objects.EncryptionKeyInformation(
+                unique_identifier='100182d5-72b8-47aa-8383-4d97d512e98a',
+                cryptographic_parameters=attributes.CryptographicParameters(block_cipher_mode=enums.BlockCipherMode.NIST_KEY_WRAP)),
+            encoding_option=enums.EncodingOption.NO_ENCODING)
+
+    for n, m in enumerate([b'', b'\x00', b'\x01' * 7, b'\x02' * 8, b'\x03' * 9, bytes(range(32))]):
+        out.append(('KeyBlock', (lambda m=m: key_block(m)), ALL, 'KeyBlock(RAW, KeyValue(KeyMaterial(%d bytes)), AES, 128)' % len(m)))
+        out.append(('KeyValue', (lambda m=m: objects.KeyValue(key_material=objects.KeyMaterial(m))), ALL, 'KeyValue(KeyMaterial(%d bytes))' % len(m)))
+    out.append(('KeyBlock', lambda: key_block(alg=None, length=None, wrap=wrapping()), ALL, 'KeyBlock(wrapped, no algorithm/length)'))
+    out.append(('KeyBlock', lambda: key_block(length=0, comp=enums.KeyCompressionType.EC_PUBLIC_KEY_TYPE_UNCOMPRESSED), ALL, 'KeyBlock(length 0, compression type)'))
+    out.append(('KeyValue', lambda: objects.KeyValue(key_material=objects.KeyMaterialStruct()), ALL, 'KeyValue(KeyMaterialStruct())'))
+    out.append(('KeyValue', lambda: objects.KeyValue(key_material=objects.KeyMaterial(b'\x05' * 24), attributes=mk_attrs(1)), V1, 'KeyValue(material, attributes)'))
+    out.append(('SymmetricKey', lambda: secrets.SymmetricKey(key_block()), ALL, 'SymmetricKey(KeyBlock)'))
+    out.append(('PublicKey', lambda: secrets.PublicKey(key_block(b'\x30\x82' * 20, enums.KeyFormatType.X_509, enums.CryptographicAlgorithm.RSA, 2048)), ALL, 'PublicKey(KeyBlock X.509 RSA 2048)'))
+    out.append(('PrivateKey', lambda: secrets.PrivateKey(key_block(b'\x30\x82' * 33, enums.KeyFormatType.PKCS_8, enums.CryptographicAlgorithm.RSA, 2048)), ALL, 'PrivateKey(KeyBlock PKCS#8 RSA 2048)'))
+    out.append(('SecretData', lambda: secrets.SecretData(secrets.SecretData.SecretDataType(enums.SecretDataType.PASSWORD),
+                                                         key_block(b'secret', enums.KeyFormatType.OPAQUE, None, None)), ALL, 'SecretData(PASSWORD, KeyBlock OPAQUE)'))
+    out.append(('OpaqueObject', lambda: secrets.OpaqueObject(secrets.OpaqueObject.OpaqueDataType(enums.OpaqueDataType.NONE),
+                                                             secrets.OpaqueObject.OpaqueDataValue(b'\x00' * 9)), ALL, 'OpaqueObject(NONE, 9 bytes)'))
+    out.append(('Certificate', lambda: secrets.Certificate(enums.CertificateType.X_509, b'\x30\x82\x03\x12'), ALL, 'Certificate(X_509, 4 bytes)'))
+    out.append(('Certificate', lambda: secrets.Certificate(enums.CertificateType.PGP, b''), ALL, 'Certificate(PGP, empty)'))
+    out.append(('SplitKey', lambda: secrets.SplitKey(split_key_parts=4, key_part_identifier=1, split_key_threshold=2,
+                                                     split_key_method=enums.SplitKeyMethod.POLYNOMIAL_SHARING_PRIME_FIELD,
+                                                     prime_field_size=104729, key_block=key_block()), ALL, 'SplitKey(prime field)'))
+    out.append(('SplitKey', lambda: secrets.SplitKey(split_key_parts=2, key_part_identifier=2, split_key_threshold=2,
+                                                     split_key_method=enums.SplitKeyMethod.XOR, key_block=key_block()), ALL, 'SplitKey(XOR)'))
+
+    # --- credentials / authentication
+    out.append(('Credential', lambda: objects.Credential(enums.CredentialType.USERNAME_AND_PASSWORD,
+                                                         objects.UsernamePasswordCredential('John', 'abc123')), ALL, 'Credential(username/password)'))
+    out.append(('Credential', lambda: objects.Credential(enums.CredentialType.USERNAME_AND_PASSWORD,
+                                                         objects.UsernamePasswordCredential('', '')), ALL, 'Credential(username "", password "")'))
+    out.append(('Credential', lambda: objects.Credential(enums.CredentialType.DEVICE,
+                                                         objects.DeviceCredential(device_serial_number='serNum123456', password='secret', device_identifier='devID2233',
+                                                                                  network_identifier='netID9000', machine_identifier='machineID1', media_identifier='mediaID313')), ALL, 'Credential(device)'))
+    out.append(('Credential', lambda: objects.Credential(enums.CredentialType.ATTESTATION,
+                                                         objects.AttestationCredential(nonce=objects.Nonce(nonce_id=b'\x01', nonce_value=b'\x00' * 8),
+                                                                                       attestation_type=enums.AttestationType.TPM_QUOTE, attestation_measurement=b'\xff' * 8)), [12, 13, 14, 20], 'Credential(attestation)'))
+    out.append(('Authentication', lambda: contents.Authentication(credentials=[
+        objects.Credential(enums.CredentialType.USERNAME_AND_PASSWORD, objects.UsernamePasswordCredential('a', None)),
+        objects.Credential(enums.CredentialType.DEVICE, objects.DeviceCredential(device_serial_number='s'))]), ALL, 'Authentication(2 credentials)'))
+
+    # --- payloads with dispatch / conversions
+    def ta(k=0):
+        return objects.TemplateAttribute(attributes=mk_attrs(k))
+    out.append(('GetResponsePayload', lambda: payloads.GetResponsePayload(enums.ObjectType.SYMMETRIC_KEY, '1', secrets.SymmetricKey(key_block())), ALL, 'GetResponsePayload(SYMMETRIC_KEY, "1", SymmetricKey)'))
+    out.append(('GetResponsePayload', lambda: payloads.GetResponsePayload(enums.ObjectType.SECRET_DATA, 'abcdefgh', secrets.SecretData(
+        secrets.SecretData.SecretDataType(enums.SecretDataType.SEED), key_block(b'x', enums.KeyFormatType.OPAQUE, None, None))), ALL, 'GetResponsePayload(SECRET_DATA)'))
+    out.append(('GetResponsePayload', lambda: payloads.GetResponsePayload(enums.ObjectType.CERTIFICATE, '2', secrets.Certificate(enums.CertificateType.X_509, b'\x30')), ALL, 'GetResponsePayload(CERTIFICATE)'))
+    for k in range(4):
+        out.append(('CreateRequestPayload', (lambda k=k: payloads.CreateRequestPayload(enums.ObjectType.SYMMETRIC_KEY, ta(k))), ALL, 'CreateRequestPayload(SYMMETRIC_KEY, template #%d)' % k))
+    out.append(('CreateResponsePayload', lambda: payloads.CreateResponsePayload(enums.ObjectType.SYMMETRIC_KEY, '1', ta(1)), V1, 'CreateResponsePayload(with template attribute)'))
+    out.append(('CreateResponsePayload', lambda: payloads.CreateResponsePayload(enums.ObjectType.SYMMETRIC_KEY, ''), ALL, 'CreateResponsePayload(unique identifier "")'))
+    out.append(('RegisterRequestPayload', lambda: payloads.RegisterRequestPayload(enums.ObjectType.SYMMETRIC_KEY, ta(2), secrets.SymmetricKey(key_block())), ALL, 'RegisterRequestPayload(SYMMETRIC_KEY)'))
+    out.append(('RegisterRequestPayload', lambda: payloads.RegisterRequestPayload(enums.ObjectType.OPAQUE_DATA, ta(0), secrets.OpaqueObject(
+        secrets.OpaqueObject.OpaqueDataType(enums.OpaqueDataType.NONE), secrets.OpaqueObject.OpaqueDataValue(b''))), ALL, 'RegisterRequestPayload(OPAQUE_DATA, empty value)'))
+    out.append(('CreateKeyPairRequestPayload', lambda: payloads.CreateKeyPairRequestPayload(
+        common_template_attribute=objects.TemplateAttribute(attributes=mk_attrs(1), tag=enums.Tags.COMMON_TEMPLATE_ATTRIBUTE),
+        private_key_template_attribute=objects.TemplateAttribute(attributes=mk_attrs(2), tag=enums.Tags.PRIVATE_KEY_TEMPLATE_ATTRIBUTE),
+        public_key_template_attribute=objects.TemplateAttribute(attributes=mk_attrs(3), tag=enums.Tags.PUBLIC_KEY_TEMPLATE_ATTRIBUTE)), ALL, 'CreateKeyPairRequestPayload(3 templates)'))
+    out.append(('LocateRequestPayload', lambda: payloads.LocateRequestPayload(maximum_items=0, offset_items=0, storage_status_mask=0, attributes=mk_attrs(2)), ALL, 'LocateRequestPayload(max 0, offset 0, mask 0, attributes)'))
+    out.append(('LocateRequestPayload', lambda: payloads.LocateRequestPayload(), ALL, 'LocateRequestPayload()'))
+    out.append(('GetAttributesRequestPayload', lambda: payloads.GetAttributesRequestPayload('1', ['Name', 'Object Group', 'x-Purpose']), V1, 'GetAttributesRequestPayload(names incl. custom)'))
+    out.append(('GetAttributesRequestPayload', lambda: payloads.GetAttributesRequestPayload('', ['Cryptographic Algorithm']), ALL, 'GetAttributesRequestPayload(uid "")'))
+    out.append(('GetAttributesResponsePayload', lambda: payloads.GetAttributesResponsePayload('1', mk_attrs(3)), ALL, 'GetAttributesResponsePayload'))
+    out.append(('GetAttributeListResponsePayload', lambda: payloads.GetAttributeListResponsePayload('1', ['Name', 'State']), ALL, 'GetAttributeListResponsePayload'))
+    out.append(('QueryRequestPayload', lambda: payloads.QueryRequestPayload([enums.QueryFunction.QUERY_OPERATIONS, enums.QueryFunction.QUERY_OBJECTS]), ALL, 'QueryRequestPayload(2 functions)'))
+    out.append(('DeriveKeyRequestPayload', lambda: payloads.DeriveKeyRequestPayload(
+        object_type=enums.ObjectType.SYMMETRIC_KEY, unique_identifiers=['1', ''], derivation_method=enums.DerivationMethod.HASH,
+        derivation_parameters=attributes.DerivationParameters(derivation_data=b'', iteration_count=0), template_attribute=ta(1)), ALL, 'DeriveKeyRequestPayload'))
+
+    # --- whole messages
+    def header(v, **kw):
+        return messages.RequestHeader(protocol_version=contents.ProtocolVersion(v // 10, v % 10), batch_count=contents.BatchCount(kw.pop('n', 1)), **kw)
+
+    def req(v, items, **kw):
+        return messages.RequestMessage(request_header=header(v, n=len(items), **kw), batch_items=items)
+
+    for v in ALL:
+        out.append(('RequestMessage', (lambda v=v: req(v, [messages.RequestBatchItem(operation=contents.Operation(enums.Operation.GET),
+                                                                                  request_payload=payloads.GetRequestPayload('1'))])), [v], 'RequestMessage(Get "1") under its own version %d' % v))
+        out.append(('RequestMessage', (lambda v=v: req(v, [
+            messages.RequestBatchItem(operation=contents.Operation(enums.Operation.CREATE), unique_batch_item_id=contents.UniqueBatchItemID(b'\x01'),
+                                      request_payload=payloads.CreateRequestPayload(enums.ObjectType.SYMMETRIC_KEY, ta(1))),
+            messages.RequestBatchItem(operation=contents.Operation(enums.Operation.ACTIVATE), unique_batch_item_id=contents.UniqueBatchItemID(b'\x02'),
+                                      request_payload=payloads.ActivateRequestPayload())],
+            maximum_response_size=contents.MaximumResponseSize(0), batch_order_option=contents.BatchOrderOption(True),
+            authentication=contents.Authentication(credentials=[objects.Credential(enums.CredentialType.USERNAME_AND_PASSWORD, objects.UsernamePasswordCredential('u', 'p'))]))),
+            [v], 'RequestMessage(Create + Activate, authentication, max response size 0) under version %d' % v))
+        out.append(('ResponseMessage', (lambda v=v: messages.ResponseMessage(
+            response_header=messages.ResponseHeader(protocol_version=contents.ProtocolVersion(v // 10, v % 10), time_stamp=contents.TimeStamp(0), batch_count=contents.BatchCount(2)),
+            batch_items=[messages.ResponseBatchItem(operation=contents.Operation(enums.Operation.DESTROY), result_status=contents.ResultStatus(enums.ResultStatus.SUCCESS),
+                                                    response_payload=payloads.DestroyResponsePayload(attributes.UniqueIdentifier('1'))),
+                         messages.ResponseBatchItem(result_status=contents.ResultStatus(enums.ResultStatus.OPERATION_FAILED),
+                                                    result_reason=contents.ResultReason(enums.ResultReason.ITEM_NOT_FOUND), result_message=contents.ResultMessage(''))])),
+            [v], 'ResponseMessage(Destroy success + failure with empty message) under version %d' % v))
+
+    n_built = 0
+    for name, thunk, versions, how in out:
+        try:
+            x = thunk()
+        except Exception as e:
+            ctx.count('constructed.ctor-refused.%s' % name)
+            continue
+        n_built += 1
+        for v in versions:
+            others = [y for y in versions if y != v]
+            ov = [others[(n_built + v) % len(others)]] if others else []
+            if 20 in others and v != 20 and 20 not in ov:
+                ov.append(20)
+            try:
+                x = thunk()      # a fresh object per version: a purity failure must not contaminate the next check
+            except Exception:
+                break
+            oracle.constructed(name, x, v, other_versions=ov, how=how)
+    ctx.cov['constructed_objects'] = {'builders': len(out), 'built': n_built,
+                                      'classes': sorted({n for n, _, _, _ in out})}
+
+
 # ------------------------------------------------------------------ run
 def run(ctx):
     ctx.cov['rule'] = (
@@ -610,12 +844,28 @@ def run(ctx):
         ctx.disagreement('prims', {'case': pmeta[i], 'coq': pcases[i][:400]})
 
     probes(ctx, oracle)
+    constructed_objects(ctx, oracle)
 
+    header = HEADER
     if not ok_regen:
-        # the translator refused the tree: no schema to tie; still look for a concrete failing input
-        harvested_oracle(ctx, oracle, set())
-        return
-    doc = load_schema()
+        # The translator refused the tree (fail closed: that alone makes the run fail).  To still look for a concrete
+        # failing input, tie what CAN be translated: the classes with an untranslatable construct and everything
+        # containing them are dropped, and the partial environment is inlined in the case files (coq/gen is not touched).
+        import gen_schemas
+        try:
+            t = gen_schemas.translate(ctx.repo)
+            doc = json.loads(gen_schemas.render_json(t))
+            inline = gen_schemas.render_coq(t)
+            header = ('From PK Require Import Codec.SchemaCases.\n' + inline +
+                      'From Coq Require Import ZArith String List.\nImport ListNotations.\nOpen Scope Z_scope.\nNotation length := List.length.\n')
+            ctx.cov['translator_partial'] = {'untranslatable': t['unlisted_errors']}
+            ctx.log('translator refused %d class(es); continuing with a partial environment of %d classes' % (len(t['unlisted_errors']), len(doc['classes'])))
+        except Exception as e:
+            ctx.log('no partial environment either: %s' % e)
+            harvested_oracle(ctx, oracle, set())
+            return
+    else:
+        doc = load_schema()
     t_classes = {c['name'] for c in doc['classes']}
     ctx.cov['translator'] = {
         'classes_with_read_write': len(doc['all_class_names']),
@@ -629,7 +879,7 @@ def run(ctx):
     ctx.log('translator: %d of %d classes under T, %d excluded' % (len(doc['classes']), len(doc['all_class_names']), len(doc['excluded'])))
 
     # --- E_ok on the regenerated environment, independently of props/C01.v
-    okE, out, err = ctx.coq_eval('env_ok', HEADER + 'Eval vm_compute in (env_ok E, map c_name (filter (fun k => negb (cls_ok E k)) (e_classes E))).\n')
+    okE, out, err = ctx.coq_eval('env_ok', header + 'Eval vm_compute in (env_ok E, map c_name (filter (fun k => negb (cls_ok E k)) (e_classes E))).\n')
     flat = ' '.join(out.split())
     ctx.cov['env_ok'] = flat[:400] if okE else 'coqc failed: ' + (err or out)[-400:]
     env_ok = okE and '(true,' in flat.replace(' ', '')
@@ -640,11 +890,11 @@ def run(ctx):
     # --- structures: correspondence + oracle
     cases, meta, per_class = struct_cases(ctx, doc, oracle)
     ctx.cov['per_class'] = per_class
-    bad = ctx.run_cases('structs', HEADER, cases, 'check_scase E %d' % FUEL,
+    bad = ctx.run_cases('structs', header, cases, 'check_scase E %d' % FUEL,
                         what='rd/wr of Codec/Schema.v under the regenerated E vs read()/write() of the real classes')
     for i in bad[:20]:
         m = dict(meta[i])
-        m['model'] = ctx.model_output(HEADER, 'model_scase E %d (%s)' % (FUEL, cases[i])) if i in bad[:3] else None
+        m['model'] = ctx.model_output(header, 'model_scase E %d (%s)' % (FUEL, cases[i])) if i in bad[:3] else None
         ctx.disagreement('structs', m)
     for i in (0, len(cases) // 3, 2 * len(cases) // 3):
         if cases:
